@@ -75,7 +75,7 @@ P("C11", "model_checking",
   bounded={"max_bytes_quick": 7, "max_bytes_thorough": 9})
 P("C12", "proof",
   "init, reset and a successful verify are proved to establish one fully specified state (every scalar field, every byte-level field of every state entry zero - ghost level index) from completely arbitrary struct and state-array contents; a rejected init/reset still defines depth and current_state; the token loop is proved to keep every unused level zeroed (level wiped when an object is left). Writer init/reset likewise.",
-  "history independence of the remaining calls follows from their frames (they read only parser, state array, buffer) and from E4 (no static data)", "CBMC function contracts (canonical post-state from arbitrary pre-state)", "5/C12")
+  "history independence of the remaining calls follows from their frames (they read only parser, state array, buffer) and from E4 (no static data); the two print wrappers (binson_parser_print, binson_parser_to_string) are proved to remove their callback and context on every path (complete, loop-free, under a summary of verify-in-print-mode whose induction over tokens is a paper step), so nothing of a rendering - failed or not - is carried into the next use of the parser object", "CBMC function contracts (canonical post-state from arbitrary pre-state)", "5/C12")
 P("C13", "proof",
   "Per token (all ten token kinds, all capacities 0..2^32 incl. NULL, any fill level, payloads up to the INT_MAX rendering limit) _binson_to_string_cb is proved to store nothing outside the capacity (every byte snprintf writes is inside the destination), to advance buffer_used by exactly the sum of the would-be lengths (capacity independent) and to set buffer_full iff buffer_used + 1 > capacity; binson_parser_to_string is proved to install a context that meets the callback precondition (NULL => capacity 0), to return true iff verify accepted and the text + terminator fit, and to report *size = text length on success, text length + 1 otherwise.",
   "snprintf under the assumed C99 contract (writes min(n, L+1) bytes, returns the would-be length L independent of n); the accumulation over the tokens of a document is a paper induction over the per-token contract (the wrapper proof uses it as a summary of verify-in-print-mode); a single token rendering in more than INT_MAX characters is excluded by precondition (known int-overflow of the accounting, DESIGN.md 5/C13); the text content itself is not modelled",
